@@ -541,6 +541,11 @@ impl Sim {
     }
 
     pub fn env_step(&mut self, w: usize, n: usize) {
+        // `Environment::step` first handles the completions the backend has ready; record that as a
+        // step of its own so that every record is either "completions" or "one event"
+        if n > 0 && self.backend_pending() {
+            self.env_step(w, 0);
+        }
         self.schedule.push(Step::Env { w, n });
         self.steps_done += 1;
         let nw = self.nworkers();
